@@ -612,7 +612,23 @@ func NewRaft(conf *Config, fsm FSM, logs LogStore, stable StableStore, snaps Sna
 		}
 	}
 
+	// restoreFromCommittedLogs hands the committed entries to the FSM goroutine
+	// through fsmMutateCh. Start that goroutine first: without a consumer the
+	// channel fills up and NewRaft blocks for ever once the replay needs more
+	// batches than the channel holds.
+	if !conf.skipStartup {
+		r.goFunc(r.runFSM)
+	}
+	// abortStartup stops what was started above when NewRaft fails later on.
+	abortStartup := func() {
+		if !conf.skipStartup {
+			close(r.shutdownCh)
+			r.waitShutdown()
+		}
+	}
+
 	if err := r.restoreFromCommittedLogs(); err != nil {
+		abortStartup()
 		return nil, err
 	}
 
@@ -625,6 +641,7 @@ func NewRaft(conf *Config, fsm FSM, logs LogStore, stable StableStore, snaps Sna
 			panic(err)
 		}
 		if err := r.processConfigurationLogEntry(&entry); err != nil {
+			abortStartup()
 			return nil, err
 		}
 	}
@@ -647,9 +664,8 @@ func NewRaft(conf *Config, fsm FSM, logs LogStore, stable StableStore, snaps Sna
 	if conf.skipStartup {
 		return r, nil
 	}
-	// Start the background work.
+	// Start the background work (the FSM goroutine is running already).
 	r.goFunc(r.run)
-	r.goFunc(r.runFSM)
 	r.goFunc(r.runSnapshots)
 	return r, nil
 }
@@ -765,6 +781,11 @@ func (r *Raft) restoreFromCommittedLogs() error {
 	}
 
 	r.setCommitIndex(commitIndex)
+	if r.config().skipStartup {
+		// Nothing is started (GetConfiguration): there is no FSM goroutine to
+		// replay into, and no need to.
+		return nil
+	}
 	r.processLogs(commitIndex, nil)
 	return nil
 }
